@@ -38,6 +38,10 @@ structure Field where
   hash : Flag
   /-- the two field values have different hash codes (whatever `==` says) -/
   hashDiffers : Bool
+  /-- per-field `order=` argument as written (its key function is NOT an eq key) -/
+  order : EqArg
+  /-- outcome of `orderkey(x.f) == orderkey(y.f)`: what `==` would see if the order key were (wrongly) applied -/
+  orderKeyed : Outcome
   deriving DecidableEq, Repr, FromJson, ToJson, Inhabited
 
 /-- What the right operand is, relative to the left operand `x : C`. -/
@@ -92,6 +96,9 @@ structure Case where
   subLayer : Layer
   /-- the class of the operand when `rhs = foreign` -/
   foreignLayer : Layer
+  /-- what the METACLASS of all classes involved answers for `==` / `!=` between two class objects
+      (absent = plain `type`: identity); "the very same class" is identity, so nothing here reads it -/
+  metaLayer : Layer
   hist   : Hist
   deriving DecidableEq, Repr, FromJson, ToJson, Inhabited
 
@@ -123,8 +130,8 @@ structure Obs where
 
 /-! ### `_determine_attrib_eq_order`, equality half (default_eq = True) -/
 
-/-- `some (participates, hasKey)`, or `none` when `attrib()` raises ValueError (cmp mixed with eq). -/
-def effEq (f : Field) : Option (Bool × Bool) :=
+/-- the `eq`/`cmp` part of the table: `some (participates, hasKey)`, `none` for cmp mixed with eq -/
+def eqTable (f : Field) : Option (Bool × Bool) :=
   match f.cmp, f.eq with
   | .unset, .unset => some (true, false)
   | .unset, .t     => some (true, false)
@@ -134,6 +141,17 @@ def effEq (f : Field) : Option (Bool × Bool) :=
   | .f, .unset     => some (false, false)
   | .key, .unset   => some (true, true)
   | _, _           => none
+
+/-- the `order=` argument is acceptable: not mixed with `cmp`, not True/key where `eq` is False -/
+def orderOk (f : Field) : Bool :=
+  match f.order with
+  | .unset => true
+  | .f => f.cmp == .unset
+  | _ => f.cmp == .unset && f.eq != .f
+
+/-- `some (participates, hasKey)`, or `none` when `attrib()` raises ValueError.  An `order=` argument —
+    a key function included — never changes which fields participate nor the key `==` goes through. -/
+def effEq (f : Field) : Option (Bool × Bool) := if orderOk f then eqTable f else none
 
 def participates (f : Field) : Bool := match effEq f with | some (p, _) => p | none => false
 def hasKey (f : Field) : Bool := match effEq f with | some (_, k) => k | none => false
